@@ -4,7 +4,7 @@ import vlib
 from vlib import Violation
 
 PID = "C14"
-TARGETS = ["Run.vo", "RunSpec.vo"]
+TARGETS = ["Run.vo", "RunSpec.vo", "NonVacuous/C14.vo"]
 IMPORTS = "From VF Require Import Base Show Gen_Errors Gen_Esr ErrTable Run."
 ALLOWED_AXIOMS = []
 PROFILES = ["debug"]
